@@ -116,6 +116,52 @@ theorem C16_look_alike_types_distinct (cfg : StructCfg) (rm : RM) (hne : rm ≠ 
 example : stripTypeId (b! "main.Line#1") = b! "main.Line" ∧ stripTypeId (b! "main.Line") = b! "main.Line"
     ∧ stripTypeId (b! "struct { A int \"k:\\\"#1\\\"\" }") = b! "struct { A int \"k:\\\"#1\\\"\" }" := by decide
 
+/-! ### `SetRule`: the registry of rule sets (`v.ruleMap[ty] = rule`, key `none` = the unscoped set)
+
+A later registration for the same key replaces the earlier one; registrations for different keys do not
+affect each other, in whatever order they are made (typed then unscoped = unscoped then typed); the call
+configuration the walker sees (`StructCfg.outer`, `StructCfg.typed`) is the final content of this registry. -/
+
+abbrev Registry := List (Option Bytes × RM)
+
+def Registry.set (r : Registry) (k : Option Bytes) (rm : RM) : Registry := (k, rm) :: r.filter (fun e => e.1 != k)
+def Registry.get (r : Registry) (k : Option Bytes) : Option RM := (r.find? (fun e => e.1 == k)).map (·.2)
+
+theorem C16_setrule_last_wins (r : Registry) (k : Option Bytes) (rm : RM) : (r.set k rm).get k = some rm := by
+  simp [Registry.set, Registry.get]
+
+theorem C16_setrule_other_key (r : Registry) (k k' : Option Bytes) (rm : RM) (h : k ≠ k') :
+    (r.set k rm).get k' = r.get k' := by
+  have h1 : (k == k') = false := by simpa using h
+  simp only [Registry.set, Registry.get, List.find?_cons, h1]
+  congr 1
+  induction r with
+  | nil => rfl
+  | cons e r ih =>
+    by_cases he : e.1 = k
+    · have : (e.1 == k') = false := by rw [he]; exact h1
+      subst he
+      simp [List.filter, List.find?_cons, h1, ih]
+    · have : (e.1 != k) = true := by simpa using he
+      simp only [List.filter, this, List.find?_cons]
+      split
+      · rfl
+      · exact ih
+
+theorem C16_setrule_order_indep (r : Registry) (k1 k2 : Option Bytes) (rm1 rm2 : RM) (h : k1 ≠ k2) (k : Option Bytes) :
+    ((r.set k1 rm1).set k2 rm2).get k = ((r.set k2 rm2).set k1 rm1).get k := by
+  by_cases e1 : k = k1
+  · subst e1
+    rw [C16_setrule_other_key _ k2 k rm2 (Ne.symm h), C16_setrule_last_wins, C16_setrule_last_wins]
+  · by_cases e2 : k = k2
+    · subst e2
+      rw [C16_setrule_last_wins, C16_setrule_other_key _ k1 k rm1 h, C16_setrule_last_wins]
+    · rw [C16_setrule_other_key _ k2 k rm2 (Ne.symm e2), C16_setrule_other_key _ k1 k rm1 (Ne.symm e1),
+        C16_setrule_other_key _ k1 k rm1 (Ne.symm e1), C16_setrule_other_key _ k2 k rm2 (Ne.symm e2)]
+
+example : (Registry.get (Registry.set (Registry.set ([] : Registry) (some (b! "main.Inner")) [(b! "A", b! "required")]) none []) (some (b! "main.Inner")))
+    = some [(b! "A", b! "required")] := by decide
+
 /-- the code's rule table `validName2FnMap` binds every rule name to the function the model's table
 binds it to, and has exactly the model's rule names (re-extracted from the source on every run) -/
 theorem C16_rule_table : PGV.Expected.ruleTableOK PGV.Generated.ruleTable = true ∧ PGV.Expected.modelKeysOK PGV.Generated.ruleKeys = true :=
